@@ -110,10 +110,10 @@ class OperatorTable(Expression):
                 out += (inner_checkpoint << POS)
 
             with utils.if_fails(out, flags, self.operands):
-                if self.operands.can_partially_succeed():
-                    # If we have a result, then backtrack to the checkpoint.
-                    with out.IF(operand_stack):
-                        out += (POS << outer_checkpoint)
+                # If we have a result, then backtrack to the checkpoint. (Any
+                # operators that we consumed after it are left in the input.)
+                with out.IF(operand_stack):
+                    out += (POS << outer_checkpoint)
                 out += BREAK
 
             # OK, we have an operand.
